@@ -72,6 +72,10 @@ def cases(tier):
             out.append({"k": "strs", "d": d, "ss": g1[i : i + 16], "modes": ["lint", "fix"]})
         for t in corpus.SIGMA_T18 + corpus.DIALECT_TOKENS.get(d, []):
             out.append({"k": "tblock", "d": d, "p": t, "n": 2, "ext": True, "modes": ["lint"]})
+    # Jinja files whose tokens span template slices / templated whitespace next to literal whitespace
+    sp = corpus.span_templates(3 if tier == "quick" else 4)
+    for i in range(0, len(sp), 16):
+        out.append({"k": "jinja", "ss": sp[i : i + 16], "modes": ["parse", "lint", "fix"]})
     for kind in ("paren", "case", "sub", "open"):
         for mpd in (255, 6, 0):
             out.append({"k": "nest", "kind": kind, "mpd": mpd, "ns": DEPTHS})
@@ -157,8 +161,13 @@ def run_case(case):
         lnt = sq.linter(case["d"])
         for s in case["ss"]:
             run_modes(lnt, s, case["modes"], {"k": "one", "tpl": None, "d": case["d"], "s": s}, res, case["d"])
+    elif k == "jinja":
+        lnt = sq.linter("ansi", "jinja", configs=sq.jinja_ctx_configs(corpus.T_CTX[2]))
+        for s in case["ss"]:
+            run_modes(lnt, s, case["modes"], {"k": "one", "tpl": "jinja", "d": "ansi", "s": s, "ctx": 2}, res)
     elif k == "one":
-        lnt = sq.linter(case["d"], case["tpl"], configs=TPL_CFG.get(case["tpl"]))
+        cfgs = sq.jinja_ctx_configs(corpus.T_CTX[case["ctx"]]) if case.get("ctx") is not None else TPL_CFG.get(case["tpl"])
+        lnt = sq.linter(case["d"], case["tpl"], configs=cfgs)
         run_modes(lnt, case["s"], case["modes"], case, res, case["d"])
     elif k == "nest":
         lnt = sq.linter("ansi", "raw", max_parse_depth=case["mpd"])
